@@ -199,7 +199,15 @@ class History(object):
                 fh.write(text)
             self.service_files[name.decode()] = text
         self.T = rng.choice([1200, 1500])
-        cfg = busproc.make_config("@SOCK@", servicedirs=[svcdir], limits={"service_start_timeout": self.T})
+        limits = {"service_start_timeout": self.T}
+        # In half of the histories the bus-wide limit on pending starts is small, but always larger than the number of
+        # requests one round can have waiting (at most 5 senders x 3 messages x 2 batches + one probe per name, and
+        # every round ends only when all its waiters have their outcome): LimitsExceeded must therefore never be seen.
+        # A bus that miscounts finished activations runs into the limit after a few rounds.
+        self.start_limit = rng.choice([None, 40, 48])
+        if self.start_limit:
+            limits["max_pending_service_starts"] = self.start_limit
+        cfg = busproc.make_config("@SOCK@", servicedirs=[svcdir], limits=limits)
         self.daemon = busproc.Daemon(self.b, self.rundir, cfg, name="h")
         self.config = self.daemon.config_text
         if not self.daemon.started():
@@ -542,6 +550,10 @@ class History(object):
             nd = len(got)
             self.part.evaluations += 1
             m.judged = True
+            if any(r.msg.known().get(4) == b"org.freedesktop.DBus.Error.LimitsExceeded" for r in errs):
+                self.violation("limits-exceeded-with-few-pending-starts:%s" % m.kind,
+                               "%s to %s was refused with LimitsExceeded although at most %d requests can be waiting for a start "
+                               "(max_pending_service_starts=%s)" % (m.kind, m.name.decode(), len(batch), self.start_limit or "default"))
             outcome = "?"
             if m.kind in ("call", "start"):
                 if len(replies) != 1:
